@@ -13,6 +13,7 @@ R3-layout (shared with C12.R3) the INIT compat replies cut the slice at the size
 R6 (cont.) the result of every write a reply helper issues is propagated (`?` or returned)
 """
 import json
+import re
 import os
 
 from pyfbr import core, vf
@@ -349,6 +350,19 @@ def r3_alloc(ctx, F, table):
                         upper = cond[1] in ("Lt", "Le") and lhs_has and lab != 0
                         if upper:
                             found = cond
+            if found is None:
+                # the bound may be applied as `checked_op(..).filter(|&n| n <= LIMIT)` on the way to the allocation
+                cands_ = list(vf.walk(size))
+                for (cond_, lab_, u_) in gs:
+                    if request_fields(cond_) & flds or (not flds and request_fields(cond_)):
+                        cands_ += list(vf.walk(cond_))
+                for x in cands_:
+                    if x[0] == "C" and x[1].endswith("Option::<T>::filter") and len(x[3]) == 2 and x[3][1][0] == "CL" and x[3][1][1] in F.fns:
+                        cb = F.fns[x[3][1][1]]
+                        t = vf.render(vf.VF(cb, inline_depth=0).ret(), cb, short=True)
+                        pn = cb.local_name(2) if cb.argc >= 2 else ""
+                        if re.match(r"(Le|Lt)\(\*?%s, " % re.escape(pn), t) or re.match(r"(Le|Lt)\((size|_2), ", t):
+                            found = ("KS", "filter(%s)" % t, "")
             ctx.check("R3-bounded-alloc", key, found is not None,
                       "%s allocates `%s` bytes/elements from the request without a dominating upper bound on that value"
                       % (b.name, vf.render(size, b, short=True)[:120]), loc=c.loc(),
